@@ -1636,6 +1636,6 @@ class XsdAlternative(XsdComponent):
         try:
             result = list(self.token.select(context=XPathContext(elem)))
             return self.token.boolean_value(result)
-        except (ElementPathError, TypeError, ValueError):
+        except (ElementPathError, ArithmeticError, TypeError, ValueError):
             # A dynamic error in the evaluation of the test is treated as a False
             return False
